@@ -1,6 +1,7 @@
 package main
 
 import (
+	"runtime/debug"
 	_ "embed"
 	"encoding/json"
 	"flag"
@@ -182,6 +183,9 @@ func safeRun(c *Check, p *Prog, r *Report) {
 	defer func() {
 		if e := recover(); e != nil {
 			r.inControl = false
+			if os.Getenv("GVLINT_DEBUG") != "" {
+				debug.PrintStack()
+			}
 			r.Fatal = append(r.Fatal, fmt.Sprintf("checker panic in rule %s: %v", r.curRule, e))
 		}
 	}()
